@@ -1,11 +1,11 @@
 // compile: clang++-14 -std=c++17 -O1 -DNDEBUG -I /repo/tooling/internal/cpp/include <this file> -o replay && ./replay
 // (drop -DNDEBUG to see the debug-build assertion)
 // property C16, violation key cc:ReadVarIntegerSlow:stale-after-short-refill
-// ReadVarIntegerSlow<ReadVarU64>: load of 1 byte(s) at buffer offset 9 lies outside [data, buffer_end_ptr_): stale bytes are decoded after FillBuffer() delivered fewer bytes than the decoder consumes; call chain ReadVarIntegerFastFromArray < ReadVarIntegerSlow < ReadVarInt64 < h_ReadVarU64
+// ReadVarIntegerSlow (entry point ReadVarU64): load of 1 byte(s) at buffer offset 9 lies outside [data, buffer_end_ptr_): stale bytes are decoded after FillBuffer() delivered fewer bytes than the decoder consumes, the call returns normally instead of throwing EndOfStreamException and leaves buffer_ptr
 // spec: throw yardl::binary::EndOfStreamException
-// native observation (release build): ret 0 / drain 000000000000000000000000000000000000000000000000000000
-// debug build, same call twice: exit -6 (assertion)
-#define BAKED_ARGS {"R", "32", "808080808080808080", "ReadVarU64", "drain"}
+// native observation (release build): ret 2112 / drain 000000000000000000000000000011100000000000007265742032
+// debug build (no -DNDEBUG) with the operation repeated (args c09080808080808080 ReadVarU64 ReadVarU64): exit -6 (assert(buffer_ptr_ <= buffer_end_ptr_) fails in the second call)
+#define BAKED_ARGS {"R", "12", "c09080808080808080", "ReadVarU64", "drain"}
 // Native replay driver for coded_stream.h (real, unmodified header; public API only).
 //
 //   replay_kernels R <N> <hex stream bytes> <cmd>...     reader script
